@@ -67,6 +67,21 @@ CLAIMED = {
         'emulator row-wise. UnitCubeEllipsoidMixture (column projections) and "stays contained after any sequence of splits" have no proof here: bounded runtime check (check_c07.py); '
         'split keeping every point in one of the new members is C13\'s partition post.',
    tech='contract-based deductive verification over abstract membership predicates and a vector algebra, z3 (NRA)', ref='7 C07'),
+ 'C08': dict(
+   text='Deductive proof of REFINEMENT, not of the distributional statement itself (contracts have no probabilistic semantics): for all inputs the real code is the reference algorithm '
+        'whose uniformity and volume calibration are textbook facts. Ellipsoid.sample returns exactly B(z/|z| u^(1/d)) + c with z the normal draw and u the uniform draw (E1); '
+        'Ellipsoid.log_v = log|det B| + (d/2) log pi - lnGamma(d/2+1) with the same B whose inverse defines contains() (E2, with C07 frame_is_consistent); every round of Union.sample '
+        'makes one multinomial(1000, exp(log_v_all - logsumexp(log_v_all))) draw (U1), accepts a candidate iff its uniform draw exceeds 1 - 1/multiplicity (U3), adds 1000 to n_sample and '
+        '1000 - #accepted to n_reject so that cube and overlap rejections are both counted (U4), appends accepted rows in order and returns the oldest cached rows (U5); Union.log_v = '
+        'logsumexp(log_v_all) + log(1 - n_reject/n_sample) after a lazy first draw that leaves existing counters untouched (U6); NautilusBound: serial rounds add 1000 / 1000 - #accepted '
+        '(N1), the pool path adds every worker\'s counters of both levels and all its rows (N2), log_v = outer log_v + log(1 - n_reject/n_sample) (N3). Checkpoint round trip of the counters '
+        'and geometry is C09.',
+   note=TRUST + 'NOT machine-checked: the probabilistic lemma (volume-proportional component choice + acceptance 1/multiplicity => uniform on the union; accepted fraction is an unbiased estimate of the '
+        'volume ratio; z/|z| u^(1/d) uniform in the ball), independence and distribution of numpy Generator draws, log 2 + lnGamma(3/2) = (1/2) log pi. UnitCubeEllipsoidMixture members and the '
+        'worker side of the pool are not under contract here. Bounded stand-in (never counted as proved; runs in both tiers as replay leg and as the bounded leg): fixed-seed two-sample '
+        'chi-square occupancy test of sample() against brute-force rejection sampling through contains(), and exp(log_v) against a Monte-Carlo volume, for Ellipsoid, Union over both member '
+        'classes after maximal splitting, NautilusBound with a network, periodic or not; alarm only at p < 1e-9.',
+   tech='contract-based deductive verification (refinement of a reference algorithm with ghost capture of generator draws) + bounded statistical stand-in', ref='7 C08'),
  'C09': dict(
    text='Deductive proof by symbolic execution of the real write followed by the real read on an HDF5 group model, per class: UnitCube, Ellipsoid, PhaseShift, '
         'UnitCubeEllipsoidMixture (all three cube/ellipsoid shapes) and Union (restricted to the unit cube or not; any number of members, any split/trim/sampling state, members abstract): '
